@@ -68,7 +68,7 @@ func isRunnerType(e ast.Expr) bool {
 // recvFields lists receiver fields mentioned in e.
 func recvFields(e ast.Node, recv string) []string {
 	seen := map[string]bool{}
-	var out []string
+	out := []string{}
 	ast.Inspect(e, func(n ast.Node) bool {
 		if se, ok := n.(*ast.SelectorExpr); ok {
 			if id, ok := se.X.(*ast.Ident); ok && id.Name == recv && !seen[se.Sel.Name] {
@@ -488,6 +488,11 @@ func c30SiteWalk(n ast.Node, sc *c30Scope, recv, fname, file string, notDid, inC
 		se, ok := b.(*ast.SelectorExpr)
 		if !ok {
 			return
+		}
+		if b != l && kind == "assign" {
+			if _, isParen := l.(*ast.ParenExpr); !isParen {
+				kind = "assign-elem" // r.F[i] = …, r.F[a:b] …, *r.F = …
+			}
 		}
 		// only the top-level field of the Runner matters: walk down to X.F where X is the base
 		for {
